@@ -14,6 +14,12 @@ Driver protocol (one request line, one response line):
   R <off> <n>  read raw bytes of the struct                                                 -> <hex>
   E <n>        encode the struct into a fresh malloc(n) buffer pre-filled with 0xFF         -> E <ret> <hex of ret bytes>
   D <hex>      decode from a fresh exact-size malloc copy of the bytes into the struct      -> D <ret>
+  C <n>        like E, but only if the last D succeeded (else "E skipped")
+  X <cap> <hex>  adversarial input: zero the struct, decode; if accepted: digest of the struct image, encode
+               (cap octets); if that worked: zero, decode the re-encoding, digest, encode again
+                                      -> X <d1> [<i1> <e1> <hex1|-> [<d2> <i2> [<e2> <hex2|->]]]
+Requests are independent "units" (each starts by filling the struct), so many can be sent at once; after a
+crash the harness restarts the program and goes on with the next unit.
 """
 import os
 import re
@@ -146,40 +152,77 @@ def c_expr(pattern):
     return pattern.replace('[]', '[0]')
 
 
-def driver_source(header_name, hdr, tags):
-    """C text of the generic driver for the given struct tags (index = type number)."""
-    o = ['#include <stdio.h>', '#include <stdlib.h>', '#include <string.h>', '#include <stddef.h>',
-         '#include <stdint.h>', '#include "%s"' % header_name, '',
-         'typedef ssize_t (*enc_f)(uint8_t *, size_t, const void *);',
-         'typedef ssize_t (*dec_f)(void *, const uint8_t *, size_t);']
+MAX_DIMS = 6
+DRV_DECLS = '''
+typedef ssize_t (*enc_f)(uint8_t *, size_t, const void *);
+typedef ssize_t (*dec_f)(void *, const uint8_t *, size_t);
+struct drv_type { size_t size; enc_f enc; dec_f dec; };
+'''
+
+
+def table_source(header_name, hdr, tags):
+    """C text compiled together with the generated source into a shared object: typed wrappers around the
+    encode / decode functions and the layout table (offsetof / sizeof evaluated by the C compiler) of
+    the given struct tags (index = type number)."""
+    o = ['#include <stddef.h>', '#include <stdint.h>', '#include "%s"' % header_name, DRV_DECLS]
     for i, tag in enumerate(tags):
         base = tag[:-2]
         o.append('static ssize_t enc_%d(uint8_t *d, size_t n, const void *s) { return %s_encode(d, n, (const struct %s *)s); }'
                  % (i, base, tag))
         o.append('static ssize_t dec_%d(void *s, const uint8_t *b, size_t n) { return %s_decode((struct %s *)s, b, n); }'
                  % (i, base, tag))
-    o.append('static const struct { size_t size; enc_f enc; dec_f dec; } TYPES[] = {')
+    o.append('const struct drv_type DRV_TYPES[] = {')
     for i, tag in enumerate(tags):
         o.append('    { sizeof(struct %s), enc_%d, dec_%d },' % (tag, i, i))
     o.append('};')
-    o.append('static void print_layout(void)\n{')
+    o.append('const size_t DRV_NTYPES = %d;' % len(tags))
+    rows = []
     for i, tag in enumerate(tags):
         for j, lf in enumerate(hdr.leaves(tag)):
+            if len(lf.dims) > MAX_DIMS:
+                raise HeaderError('more than %d array dimensions in %s' % (MAX_DIMS, lf.pattern))
             expr = c_expr(lf.pattern)
-            fmt = 'L %d %d %%zu %%zu' % (i, j)
-            args = ['offsetof(struct %s, %s)' % (tag, expr), 'sizeof(((struct %s *)0)->%s)' % (tag, expr)]
+            cols = [str(i), str(j), 'offsetof(struct %s, %s)' % (tag, expr), 'sizeof(((struct %s *)0)->%s)' % (tag, expr),
+                    str(len(lf.dims))]
             pos = 0
             for _ in lf.dims:
                 pos = lf.pattern.index('[]', pos) + 2
-                fmt += ' %zu'
-                args.append('sizeof(((struct %s *)0)->%s)' % (tag, c_expr(lf.pattern[:pos])))
-            o.append('    printf("%s\\n", %s);' % (fmt, ', '.join(args)))
-    o.append('    printf("END\\n");\n}')
-    o.append(GENERIC_MAIN)
+                cols.append('sizeof(((struct %s *)0)->%s)' % (tag, c_expr(lf.pattern[:pos])))
+            cols += ['0'] * (5 + MAX_DIMS - len(cols))
+            rows.append('    { %s },' % ', '.join(cols))
+    o.append('const size_t DRV_LAYOUT[][%d] = {' % (5 + MAX_DIMS))
+    o += rows or ['    { 0 },']
+    o.append('};')
+    o.append('const size_t DRV_NLAYOUT = %d;' % len(rows))
     return '\n'.join(o) + '\n'
 
 
 GENERIC_MAIN = r'''
+#include <stdio.h>
+#include <stdlib.h>
+#include <string.h>
+#include <stddef.h>
+#include <stdint.h>
+#include <unistd.h>
+#include <dlfcn.h>
+''' + DRV_DECLS + r'''
+#define LAYOUT_COLS 11
+static const struct drv_type *TYPES;
+static size_t NTYPES;
+static const size_t (*LAYOUT)[LAYOUT_COLS];
+static size_t NLAYOUT;
+
+static void print_layout(void)
+{
+    size_t r, k;
+    for (r = 0; r < NLAYOUT; r++) {
+        printf("L %zu %zu %zu %zu", LAYOUT[r][0], LAYOUT[r][1], LAYOUT[r][2], LAYOUT[r][3]);
+        for (k = 0; k < LAYOUT[r][4]; k++) printf(" %zu", LAYOUT[r][5 + k]);
+        putchar('\n');
+    }
+    printf("END\n");
+}
+
 static uint8_t *cur;
 static size_t cursize;
 static int curtype = -1;
@@ -210,8 +253,51 @@ static void hex(const uint8_t *p, size_t n)
     for (i = 0; i < n; i++) { putchar(d[p[i] >> 4]); putchar(d[p[i] & 15]); }
 }
 
-int main(void)
+static ssize_t lastdec = -1;
+
+static ssize_t do_decode(const uint8_t *data, size_t n)
 {
+    uint8_t *src = malloc(n);       /* exact size: reads past the input are heap overflows */
+    ssize_t r;
+    if (n > 0) memcpy(src, data, n);
+    r = TYPES[curtype].dec(cur, src, n);
+    free(src);
+    return r;
+}
+
+static void do_encode(size_t n, int print)
+{
+    uint8_t *dst = malloc(n);       /* exact size: writes past the destination are heap overflows */
+    ssize_t r;
+    if (n > 0) memset(dst, 0xFF, n);
+    r = TYPES[curtype].enc(dst, n, cur);
+    if (print) {
+        printf("E %zd ", r);
+        if (r > 0 && (size_t)r <= n) hex(dst, (size_t)r);
+        putchar('\n');
+    }
+    free(dst);
+}
+
+static unsigned long long digest(const uint8_t *p, size_t n)
+{
+    unsigned long long h = 1469598103934665603ull;   /* FNV-1a, a fingerprint of the struct image */
+    size_t i;
+    for (i = 0; i < n; i++) { h ^= p[i]; h *= 1099511628211ull; }
+    return h;
+}
+
+int main(int argc, char **argv)
+{
+    void *h;
+    if (argc < 2 || (h = dlopen(argv[1], RTLD_NOW)) == NULL) {
+        fprintf(stderr, "driver: cannot load module: %s\n", argc < 2 ? "no argument" : dlerror());
+        return 3;
+    }
+    TYPES = (const struct drv_type *)dlsym(h, "DRV_TYPES");
+    NTYPES = *(const size_t *)dlsym(h, "DRV_NTYPES");
+    LAYOUT = (const size_t (*)[LAYOUT_COLS])dlsym(h, "DRV_LAYOUT");
+    NLAYOUT = *(const size_t *)dlsym(h, "DRV_NLAYOUT");
     while (fgets(line, sizeof(line), stdin) != NULL) {
         char *e = line + 1;
         switch (line[0]) {
@@ -220,7 +306,7 @@ int main(void)
             break;
         case 'T': {
             int i = atoi(e);
-            if (i < 0 || (size_t)i >= sizeof(TYPES) / sizeof(TYPES[0])) { printf("err type\n"); break; }
+            if (i < 0 || (size_t)i >= NTYPES) { printf("err type\n"); break; }
             free(cur);
             curtype = i;
             cursize = TYPES[i].size;
@@ -251,29 +337,56 @@ int main(void)
             putchar('\n');
             break;
         }
-        case 'E': {
-            size_t n = strtoul(e, NULL, 10);
-            uint8_t *dst = malloc(n);
-            ssize_t r;
-            if (n > 0) memset(dst, 0xFF, n);
-            r = TYPES[curtype].enc(dst, n, cur);
-            printf("E %zd ", r);
-            if (r > 0 && (size_t)r <= n) hex(dst, (size_t)r);
-            putchar('\n');
-            free(dst);
+        case 'E':
+            do_encode(strtoul(e, NULL, 10), 1);
             break;
-        }
         case 'D': {
             size_t n;
-            uint8_t *src;
-            ssize_t r;
             while (*e == ' ') e++;
             n = unhex(e, scratch);
-            src = malloc(n);
-            if (n > 0) memcpy(src, scratch, n);
-            r = TYPES[curtype].dec(cur, src, n);
-            printf("D %zd\n", r);
-            free(src);
+            lastdec = do_decode(scratch, n);
+            printf("D %zd\n", lastdec);
+            break;
+        }
+        case 'C': {
+            size_t n = strtoul(e, NULL, 10);
+            if (lastdec < 0) { printf("E skipped\n"); break; }
+            do_encode(n, 1);
+            break;
+        }
+        case 'X': {
+            size_t cap = strtoul(e, &e, 10);
+            size_t n;
+            ssize_t d1, e1, d2, e2;
+            uint8_t *b1;
+            while (*e == ' ') e++;
+            n = unhex(e, scratch);
+            memset(cur, 0, cursize);
+            d1 = do_decode(scratch, n);
+            printf("X %zd", d1);
+            if (d1 >= 0) {
+                printf(" %016llx", digest(cur, cursize));
+                b1 = malloc(cap);
+                memset(b1, 0xFF, cap);
+                e1 = TYPES[curtype].enc(b1, cap, cur);
+                printf(" %zd ", e1);
+                if (e1 > 0 && (size_t)e1 <= cap) hex(b1, (size_t)e1); else putchar('-');
+                if (e1 >= 0 && (size_t)e1 <= cap) {
+                    memset(cur, 0, cursize);
+                    d2 = do_decode(b1, (size_t)e1);
+                    printf(" %zd %016llx", d2, digest(cur, cursize));
+                    if (d2 >= 0) {
+                        uint8_t *b2 = malloc(cap);
+                        memset(b2, 0xFF, cap);
+                        e2 = TYPES[curtype].enc(b2, cap, cur);
+                        printf(" %zd ", e2);
+                        if (e2 > 0 && (size_t)e2 <= cap) hex(b2, (size_t)e2); else putchar('-');
+                        free(b2);
+                    }
+                }
+                free(b1);
+            }
+            putchar('\n');
             break;
         }
         default:
@@ -291,7 +404,6 @@ int main(void)
 # compilers
 
 GCC = ['gcc', '-std=c99', '-Wall', '-Wextra', '-Werror=implicit-function-declaration', '-c']
-CLANG = ['clang', '-fsanitize=address,undefined', '-fno-sanitize-recover=all', '-g', '-fno-omit-frame-pointer']
 
 
 def gcc_check(cdir, source):
@@ -302,10 +414,25 @@ def gcc_check(cdir, source):
     return p.returncode, diags
 
 
-def build_driver(cdir, sources, exe):
-    p = subprocess.run(CLANG + sources + ['-o', exe], cwd=cdir, stdout=subprocess.PIPE, stderr=subprocess.STDOUT,
-                       text=True, errors='replace', timeout=600)
+SAN = ['-fsanitize=address,undefined', '-fno-sanitize-recover=all', '-g', '-fno-omit-frame-pointer']
+
+
+def build_main(path_c, exe):
+    """The generic driver program (built once per run): loads a module (shared object) given as argv[1]."""
+    with open(path_c, 'w') as f:
+        f.write(GENERIC_MAIN)
+    p = subprocess.run(['clang'] + SAN + [path_c, '-o', exe, '-ldl'], stdout=subprocess.PIPE, stderr=subprocess.STDOUT,
+                       text=True, errors='replace', timeout=900)
+    return p.returncode, p.stdout
+
+
+def build_module(cdir, sources, so):
+    """Generated source + table, instrumented with ASan + UBSan, as a shared object."""
+    p = subprocess.run(['clang'] + SAN + ['-shared', '-fPIC'] + sources + ['-o', so], cwd=cdir, stdout=subprocess.PIPE,
+                       stderr=subprocess.STDOUT, text=True, errors='replace', timeout=900)
     errs = [l for l in p.stdout.splitlines() if re.search(r': (error|fatal error): ', l)]
+    if p.returncode != 0 and not errs:
+        errs = [l for l in p.stdout.splitlines() if l.strip()][-3:]
     return p.returncode, errs, p.stdout
 
 
@@ -368,8 +495,8 @@ def parse_sanitizer(report, gen_source):
 class Driver(object):
     """One running driver process; restarted transparently after a crash."""
 
-    def __init__(self, exe, gen_source, errlog, timeout=20):
-        self.exe, self.gen_source, self.errlog, self.timeout = exe, gen_source, errlog, timeout
+    def __init__(self, exe, module, gen_source, errlog, timeout=20):
+        self.exe, self.module, self.gen_source, self.errlog, self.timeout = exe, module, gen_source, errlog, timeout
         self.p = None
         self.curtype = None
         self.restarts = 0
@@ -380,7 +507,7 @@ class Driver(object):
         env['ASAN_OPTIONS'] = 'detect_leaks=0:abort_on_error=0:allocator_may_return_null=1:symbolize=1'
         env['UBSAN_OPTIONS'] = 'print_stacktrace=1:halt_on_error=1'
         self.err = open(self.errlog, 'wb')
-        self.p = subprocess.Popen([self.exe], stdin=subprocess.PIPE, stdout=subprocess.PIPE, stderr=self.err,
+        self.p = subprocess.Popen([self.exe, self.module], stdin=subprocess.PIPE, stdout=subprocess.PIPE, stderr=self.err,
                                   env=env, bufsize=0)
         self.buf = b''
         self.curtype = None
@@ -432,6 +559,58 @@ class Driver(object):
         except BrokenPipeError:
             pass
         return self._readline()
+
+    def run_units(self, ti, units, on_crash):
+        """Run independent units (lists of request lines) on type ti, many per write.  Returns one list of
+        responses per unit (None for a unit that did not complete); on_crash(unit index, exception) is
+        called for a crash / hang, the program is restarted and the following units still run."""
+        results = [None] * len(units)
+        u = 0
+        while u < len(units):
+            if self.p is None:
+                self.start()
+            reqs, owners = [], []
+            if self.curtype != ti:
+                reqs.append('T %d' % ti)
+                owners.append(-1)
+            size = sum(len(r) + 1 for r in reqs)
+            first = u
+            while u < len(units):
+                usz = sum(len(r) + 1 for r in units[u])
+                if reqs and owners[-1] != -1 and (size + usz > 30000 or len(reqs) > 3000):
+                    break
+                for r in units[u]:
+                    reqs.append(r)
+                    owners.append(u)
+                size += usz
+                u += 1
+                if size > 30000:
+                    break
+            try:
+                self.p.stdin.write(('\n'.join(reqs) + '\n').encode())
+            except BrokenPipeError:
+                pass
+            got = {}
+            k = 0
+            try:
+                for k, owner in enumerate(owners):
+                    resp = self._readline()
+                    if owner == -1:
+                        self.curtype = ti
+                    else:
+                        got.setdefault(owner, []).append(resp)
+                for owner, resps in got.items():
+                    results[owner] = resps
+            except (Crash, Hang) as e:
+                owner = owners[k]
+                for o2, resps in got.items():
+                    if o2 != owner and len(resps) == len(units[o2]):
+                        results[o2] = resps
+                if owner == -1:
+                    raise
+                on_crash(owner, e)
+                u = owner + 1          # the program is gone; go on with the next unit
+        return results
 
     def layout(self):
         if self.p is None:
